@@ -16,7 +16,7 @@ import GruleModel.Spec
 import GruleModel.Snapshot
 import GruleModel.Properties.TableTie
 import GruleModel.Properties.SyntaxTie
-import GruleModel.Proofs.ParseDoc
+import GruleModel.Proofs.RealLiterals
 import GruleModel.Proofs.LexFacts
 namespace Grule.C05
 open Grule Grule.Expected Grule.Syntax
@@ -242,11 +242,20 @@ example : parsesTo [tk .dec "4", tk .plus "+", tk .dec "1", tk .bitand "&", tk .
     decoder is a parameter (`ConstOK`: it inverts the notation the constants are printed in). Together with
     `C05_precedence_tied` (`prec` = generated parser = grammar = published table) this is the grouping sentence of the
     property for the model; the lexer (characters → tokens) and the literal notations are validated, not proved. -/
-theorem C05_parse_print (d : Dec) (cT : Const → List Token) (ot : BinOp → List Char) (hc : ParseAtoms.ConstOK d cT)
-    (e : Expr) (hw : ParseAtoms.WFE e) (p f : Nat) (ts : List Token) (hp : p ≤ ParseGroup.level e) (hf : ParseAtoms.nE e ≤ f)
+theorem C05_parse_print (d : Dec) (cT : Const → List Token) (ot : BinOp → List Char) (P : Const → Prop) (hc : ParseAtoms.ConstOK d cT P)
+    (e : Expr) (hw : ParseAtoms.WFE P e) (p f : Nat) (ts : List Token) (hp : p ≤ ParseGroup.level e) (hf : ParseAtoms.nE e ≤ f)
     (hs : ParseGroup.stopAtom ts = true) (hfollow : ∀ op, ParseGroup.headOp ts = some op → prec op < p) :
     parseExpr d (f + 1) p (ParseAtoms.fE cT ot e ++ ts) = .ok (e, ts) :=
-  ParseAtoms.parse_print d cT ot hc e hw p f ts hp hf hs hfollow
+  ParseAtoms.parse_print d cT ot P hc e hw p f ts hp hf hs hfollow
+
+/-- … and with the real literal decoder (`realDec`: ParseInt base 0, unquoteString) for every expression whose constants
+    are integers inside int64 (decimal notation), strings `strconv.Quote` can write, booleans or nil
+    (`Proofs/RealLiterals.lean`; float notations are validated, not proved) -/
+theorem C05_parse_print_real (ot : BinOp → List Char) (e : Expr) (hw : ParseAtoms.WFE RealLiterals.Covered e) (p f : Nat) (ts : List Token)
+    (hp : p ≤ ParseGroup.level e) (hf : ParseAtoms.nE e ≤ f) (hs : ParseGroup.stopAtom ts = true)
+    (hfollow : ∀ op, ParseGroup.headOp ts = some op → prec op < p) :
+    parseExpr realDec (f + 1) p (ParseAtoms.fE RealLiterals.canonTok ot e ++ ts) = .ok (e, ts) :=
+  ParseAtoms.parse_print realDec RealLiterals.canonTok ot RealLiterals.Covered RealLiterals.real_ok e hw p f ts hp hf hs hfollow
 
 /-- `a ∘ b ∘' c` without parentheses: read as `(a ∘ b) ∘' c` exactly when `∘'` does not bind tighter than `∘` (left
     associativity at equal strength), as `a ∘ (b ∘' c)` when it does — the two trees have the same tokens, and only the one
@@ -280,6 +289,8 @@ theorem C05_leading_whitespace (ws cs : List Char) (h : ∀ c ∈ ws, isWs c = t
 #print axioms C05_keyword_case
 #print axioms C05_precedence_tied
 #print axioms C05_parse_print
+#print axioms C05_parse_print_real
+#print axioms Grule.RealLiterals.real_ok
 #print axioms C05_leading_whitespace
 #print axioms C05_three_operands
 #print axioms Grule.ParseGroup.parse_roundtrip
